@@ -16,6 +16,29 @@ class GiveUp(Exception):
     pass
 
 
+def _real_as_int(t):
+    """(C13) Int term equal to the Real term t when t is built from ToReal(int), integer constants, +, - and *
+    (z3's simplifier rewrites ToReal(a * b) into ToReal(a) * ToReal(b)); None otherwise."""
+    if z3.is_rational_value(t):
+        return z3.IntVal(t.numerator_as_long()) if t.denominator_as_long() == 1 else None
+    if not z3.is_app(t):
+        return None
+    k = t.decl().kind()
+    if k == z3.Z3_OP_TO_REAL:
+        return t.arg(0)
+    if k in (z3.Z3_OP_ADD, z3.Z3_OP_SUB, z3.Z3_OP_MUL, z3.Z3_OP_UMINUS):
+        ch = [_real_as_int(c) for c in t.children()]
+        if any(c is None for c in ch):
+            return None
+        if k == z3.Z3_OP_UMINUS:
+            return -ch[0]
+        r = ch[0]
+        for c in ch[1:]:
+            r = r + c if k == z3.Z3_OP_ADD else (r - c if k == z3.Z3_OP_SUB else r * c)
+        return r
+    return None
+
+
 def _bounds_from(assertions):
     lo, hi = {}, {}
 
@@ -133,6 +156,13 @@ class Lowerer:
             return (-(1 << (w - 1)), (1 << (w - 1)) - 1)
         raise GiveUp('int operator %s' % t.decl().name())
 
+    def _as_int(self, t):
+        """Int term of an integer-valued Real term (cached, so that the interval pass and the translation see one AST)"""
+        key = ('ri', t.get_id())
+        if key not in self.cache:
+            self.cache[key] = _real_as_int(t)
+        return self.cache[key]
+
     def scan_bool(self, t):
         for c in t.children():
             self.scan_any(c)
@@ -149,6 +179,8 @@ class Lowerer:
                 self.interval(t.arg(0))
             elif z3.is_rational_value(t):
                 pass
+            elif _real_as_int(t) is not None:
+                self.interval(self._as_int(t))
             else:
                 raise GiveUp('real term')
         elif z3.is_seq(t) or z3.is_array(t):
@@ -278,6 +310,8 @@ class Lowerer:
                 r = z3.fpSignedToFP(ch[0], self.bv(ch[1].arg(0)), t.sort())
             elif z3.is_rational_value(ch[1]):
                 r = t
+            elif _real_as_int(ch[1]) is not None:
+                r = z3.fpSignedToFP(ch[0], self.bv(self._as_int(ch[1])), t.sort())
             else:
                 raise GiveUp('real to fp')
         elif z3.is_bool(t) and ch and z3.is_int(ch[0]):
